@@ -254,7 +254,7 @@ func ChildMain(t *testing.T) {
 
 func childExplore(t *testing.T, p *Property, job *Job) {
 	start := time.Now()
-	wd := newWatchdog(60 * time.Second)
+	wd := newWatchdog(300 * time.Second)
 	sum := &childSummary{Ev: "summary", Worker: job.Worker, Kinds: map[string]int{}, Probes: map[string]int{}, Skipped: map[string]int{},
 		Strategies: map[string]int{}, Confs: map[string]int{}, GridDone: map[string]int{}}
 	hashes := map[uint64]struct{}{}
@@ -409,7 +409,7 @@ func oracleSet(vs []Violation) string {
 
 func childReplay(t *testing.T, p *Property, job *Job) {
 	rf, w := loadReplay(p, job.Replay)
-	wd := newWatchdog(120 * time.Second)
+	wd := newWatchdog(300 * time.Second)
 	wd.ch <- "replay"
 	sc := rf.Sched
 	sc.Trace = os.Getenv("VERIF_TRACE") != ""
@@ -434,7 +434,7 @@ func childMinimise(t *testing.T, p *Property, job *Job) {
 	}
 	budget := 300
 	deadline := time.Now().Add(time.Duration(job.DeadlineS * float64(time.Second)))
-	wd := newWatchdog(120 * time.Second)
+	wd := newWatchdog(300 * time.Second)
 	runs := 0
 	try := func(w any, sc SchedCfg) *Result {
 		runs++
@@ -524,7 +524,7 @@ func childMinimise(t *testing.T, p *Property, job *Job) {
 // childSelftest runs run indices [First, MaxRuns) and prints one line per run with the
 // event-log hash; the driver diffs these across processes and GOMAXPROCS values.
 func childSelftest(t *testing.T, p *Property, job *Job) {
-	wd := newWatchdog(60 * time.Second)
+	wd := newWatchdog(300 * time.Second)
 	type line struct {
 		I    int    `json:"i"`
 		Hash string `json:"h"`
